@@ -593,6 +593,16 @@ namespace
                         auto th = hs.tryGet(q);
                         V_CHECK(bool(th), "C16/lookup/typed-missing", "tryGet(\"" + printable(q) + "\") null");
                         V_CHECK(lower(th->name()) == lower(l.name), "C16/lookup/typed-wrong", "tryGet returned header " + std::string(th->name()));
+                        // the throwing accessor, through the const overload
+                        try
+                        {
+                            auto gh = hs.get(q);
+                            V_CHECK(gh && lower(gh->name()) == lower(l.name), "C16/lookup/typed-wrong", "get(\"" + printable(q) + "\") returned header " + std::string(gh ? gh->name() : "(null)"));
+                        }
+                        catch (const std::exception& e)
+                        {
+                            return Verdict::fail("C16/lookup/typed-missing", "get(\"" + printable(q) + "\") throws: " + e.what());
+                        }
                     }
                 }
             }
@@ -602,6 +612,12 @@ namespace
                 if (first.count(lower(absent)))
                     continue;
                 V_CHECK(!hs.tryGetRaw(absent) && !hs.has(absent) && !hs.tryGet(absent), "C16/lookup/absent-found", std::string("absent header ") + absent + " reported present");
+            }
+            {
+                size_t registered = 0;
+                for (auto& kv : first)
+                    registered += kv.second.registered;
+                V_CHECK(hs.list().size() == registered, "C16/lookup/typed-count", "list() has " + std::to_string(hs.list().size()) + " typed headers, " + std::to_string(registered) + " registered names were sent");
             }
             V_CHECK(hs.rawList().size() == first.size(), "C16/lookup/raw-count", "rawList has " + std::to_string(hs.rawList().size()) + " entries, expected " + std::to_string(first.size()));
         }
